@@ -221,6 +221,7 @@ impl BlockEncoder {
             match stream.read(&mut buffer[result..]) {
                 Ok(0) => break,
                 Ok(s) => result += s,
+                Err(e) if e.kind() == std::io::ErrorKind::Interrupted => continue,
                 Err(e) => {
                     log::error!("Fail to read file {:?}", e.to_string());
                     self.read_end = true;
